@@ -569,7 +569,17 @@ func (e *OwnEngine) doCall(fn *ssa.Function, call *ssa.Call) {
 	if cc.IsInvoke() {
 		switch cc.Method.Name() {
 		case "Error", "String":
-			return // pure: reads its receiver, returns a string
+			// the library's own implementations are analysed like static callees
+			// (their effects, if any, are attributed); foreign ones only read
+			for _, m := range e.funcs {
+				if m.Name() == cc.Method.Name() && m.Signature.Recv() != nil && m.Pkg == c.SLib && len(m.Params) == 1 {
+					e.addCall(fn, m)
+					if pointerLike(m.Params[0].Type()) {
+						e.flow(e.P(m.Params[0]), e.valSet(cc.Value))
+					}
+				}
+			}
+			return
 		}
 		if n, ok := cc.Value.Type().(*types.Named); ok && n.Obj().Pkg() != nil && n.Obj().Pkg().Path() == "reflect" && n.Obj().Name() == "Type" {
 			return // reflect.Type methods are read-only
